@@ -388,6 +388,7 @@ def sevm_cases():
         sevm.sstore(pre, THIS, hb.HalmosBitVec(1), hb.HalmosBitVec(11), transient=True)
         sevm.sstore(pre, OTHER, hb.HalmosBitVec(2), hb.HalmosBitVec(22), transient=True)
         sevm.sstore(pre, THIS, hb.HalmosBitVec(3), hb.HalmosBitVec(33))
+        pre.storage[OTHER].symbolic = True  # arbitrary storage (svm.enableSymbolicStorage): the marker travels with every copy
         made = []
         interp.contracts["halmos.sevm:SEVM.run"] = lambda i, a, k: (made.append(a[1]), [])[1]
         from halmos.bytevec import ByteVec
@@ -402,6 +403,7 @@ def sevm_cases():
         ctx.oblige("transient storage starts empty for every account in every transaction", z3.BoolVal(set(map(str, ts)) == set(map(str, pre.transient_storage)) and all(len(sd._mapping) == 0 for sd in ts.values())))
         ctx.oblige("every account gets a transient map of its own (a TSTORE of one account is never visible to another)", z3.BoolVal(len({id(v) for v in ts.values()}) == len(ts) and len(ts) >= 2))
         ctx.oblige("the new transient maps are fresh objects (the previous transaction's are untouched)", z3.BoolVal(ts is not pre.transient_storage and all(ts[a] is not pre.transient_storage[a] for a in ts) and len(pre.transient_storage[THIS]._mapping) == 1))
+        ctx.oblige("the arbitrary-storage marker of every account is carried over with the copy", z3.BoolVal({str(a): sd.symbolic for a, sd in ex0.storage.items()} == {str(a): sd.symbolic for a, sd in pre.storage.items()} and ex0.storage[OTHER].symbolic is True))
         ctx.oblige("persistent storage is carried over as a private copy", z3.BoolVal(ex0.storage is not pre.storage and all(ex0.storage[a] is not pre.storage[a] for a in ex0.storage) and {str(a): {str(k): str(v) for k, v in sd._mapping.items()} for a, sd in ex0.storage.items()} == {str(a): {str(k): str(v) for k, v in sd._mapping.items()} for a, sd in pre.storage.items()}))
 
     out.append(Case(f"{PROP}/sevm.SEVM.run_message#storage", "after a transaction that used transient storage", harness_tx, sources=("halmos.sevm:SEVM.run_message", "halmos.sevm:SEVM.fresh_transient_storage")))
@@ -739,6 +741,12 @@ def replay_transient_symbolic(r):
     return {"reproduced": False, "detail": "a transient read leaves the persistent symbolic initial value unconstrained"}
 
 
+def sha3_tracking_cases():
+    from contracts import c01
+
+    return [Case(f"{PROP}/sevm.Exec.sha3_data#tracking", c.case, c.harness, replay=c.replay, sources=c.sources) for c in c01.sha3_cases() if c.unit.endswith("sevm.Exec.sha3_data")]
+
+
 def select_cases_c08():
     from contracts import c02
 
@@ -746,7 +754,7 @@ def select_cases_c08():
 
 
 def build_cases(tier="quick"):
-    return select_cases_c08() + transient_vs_symbolic_cases() + solidity_cases() + generic_cases() + sevm_cases() + offsetmap_cases() + empty_hash_cases()
+    return select_cases_c08() + sha3_tracking_cases() + transient_vs_symbolic_cases() + solidity_cases() + generic_cases() + sevm_cases() + offsetmap_cases() + empty_hash_cases()
 
 
 def grounds():
